@@ -47,6 +47,14 @@ def signature(output):
     if m:
         return "harness-abort: " + re.sub(r"0x[0-9a-f]+|\d+", "#", m.group(1))[:100]
     if "libFuzzer: timeout" in output:
+        if "CONFIRMED-HANG" in output:
+            # the innermost frame is wherever the alarm happened to interrupt the loop: key on the OUTERMOST
+            # frame inside the repository, i.e. the library entry point that did not return
+            frames = re.findall(r"#\d+ 0x[0-9a-f]+ in (.+?) (/repo/[^\s:]+)", output)
+            if frames:
+                fn, path = frames[-1]
+                return "hang: %s (%s) does not return" % (path.replace("/repo/", ""), fn.rsplit("::", 1)[-1])
+            return "hang: call does not return"
         return "timeout"
     if "out-of-memory" in output:
         return "oom"
@@ -64,9 +72,28 @@ def load_known(prop):
     return [f for f in d.get("findings", []) if f.get("property") == prop and f.get("status") == "open"]
 
 
+HANG_TIMEOUT = 25   # libFuzzer -timeout for c15_readers (wall clock, first detection only)
+HANG_CPU = 20.0     # CPU seconds the single-input re-run must have burnt for the timeout to count as a hang
+
+
 def run_one(binary, path):
-    r = sh([binary, path, "-timeout=60", "-rss_limit_mb=4096"], cwd=FUZZ)
-    return r.returncode, r.stdout
+    """Run the target on one saved input. For c15_readers (property: the readers never hang) a libFuzzer
+    timeout is confirmed by CPU time: the re-run is a single process on a single input of a few KB whose
+    normal cost is microseconds; if it is killed by the alarm after having CONSUMED >= 20 CPU seconds
+    (user+system, from wait4 - so a loaded machine cannot cause it) the output is marked as a hang."""
+    is_c15 = os.path.basename(binary).startswith("c15_readers")
+    cmd = [binary, path, "-timeout=%d" % (HANG_TIMEOUT if is_c15 else 60), "-rss_limit_mb=4096"]
+    if not is_c15:
+        r = sh(cmd, cwd=FUZZ)
+        return r.returncode, r.stdout
+    p = subprocess.Popen(cmd, stdout=subprocess.PIPE, stderr=subprocess.STDOUT, cwd=FUZZ, env=ENV)
+    out = p.stdout.read().decode("utf-8", "replace")
+    _, status, ru = os.wait4(p.pid, 0)
+    p.returncode = os.waitstatus_to_exitcode(status)
+    cpu = ru.ru_utime + ru.ru_stime
+    if "libFuzzer: timeout" in out and cpu >= HANG_CPU:
+        out += "\nCONFIRMED-HANG cpu=%.1fs\n" % cpu
+    return p.returncode, out
 
 
 def replay(path):
@@ -147,7 +174,7 @@ def main():
             os.makedirs(cdir)
         else:
             shutil.copytree(corpus, cdir)
-        args = [binary, cdir, "-seed=%d" % (SEED * 1000 + k + 1), "-max_len=%d" % max_len, "-len_control=0", "-timeout=60", "-rss_limit_mb=4096",
+        args = [binary, cdir, "-seed=%d" % (SEED * 1000 + k + 1), "-max_len=%d" % max_len, "-len_control=0", "-timeout=%d" % (HANG_TIMEOUT if target == "c15_readers" else 60), "-rss_limit_mb=4096",
                 "-artifact_prefix=%s/w%d-" % (work, k), "-print_final_stats=1", "-runs=%d" % runs]
         if budget:
             args += ["-max_total_time=%d" % budget]
